@@ -1,0 +1,26 @@
+//go:build verif
+
+/*
+Copyright The ORAS Authors.
+Licensed under the Apache License, Version 2.0 (the "License");
+you may not use this file except in compliance with the License.
+You may obtain a copy of the License at
+
+http://www.apache.org/licenses/LICENSE-2.0
+
+Unless required by applicable law or agreed to in writing, software
+distributed under the License is distributed on an "AS IS" BASIS,
+WITHOUT WARRANTIES OR CONDITIONS OF ANY KIND, either express or implied.
+See the License for the specific language governing permissions and
+limitations under the License.
+*/
+
+package config
+
+// Re-exports for the verification harness (build tag verif only).
+
+// VerifEncodeAuth is encodeAuth.
+func VerifEncodeAuth(username, password string) string { return encodeAuth(username, password) }
+
+// VerifDecodeAuth is decodeAuth.
+func VerifDecodeAuth(authStr string) (string, string, error) { return decodeAuth(authStr) }
